@@ -12,11 +12,15 @@ groups, and the two `json` contracts):
                        present the image is parsed.
 * `no_cache_consulted` — with `use_cache=False` the result is the parse and no file content can influence it.
 
+`concrete_read_valid` / `concrete_group_is_uncached_open` — the same for the CONCRETE environment of an image file: `EnvOK` is
+discharged for the groups the layout-based reader builds (bridge to the codec's view of a group: `Model/Bridge.lean`, H11).
+
 Known finding (not covered by these theorems, because `E.U` abstracts the filesystem): the stored root of the image
 array drops the filesystem protocol, so caches written for products on non-local filesystems (memory://, custom)
 decode to arrays on the local disk — see known_findings.json.
 -/
 import Alos2.Proofs.Flow
+import Alos2.Proofs.Bridge
 
 namespace Alos2.C07
 
@@ -50,5 +54,40 @@ theorem cache_is_used (E : Env) (h : EnvOK E) (s : CState) (rw r : Nat) (create 
 theorem no_cache_consulted (E : Env) (s : CState) (create : Bool) (r : Nat) :
     (openImage E s false create r).result = .ok (E.U r) ∧ (openImage E s false create r).source = some .parsed :=
   openImage_no_cache E s create r
+
+/-- THE CONCRETE ENVIRONMENT — no assumption left about the groups: for an image file that opens (layout-based reader) into a
+    bridgeable group with instants at or after the epoch, the environment "uncached group at chunk size r = that group with
+    `records_per_chunk := r`" satisfies `EnvOK` (given the `json` and `repr` contracts); so, whatever chunk size the cache was
+    written with, a cached open returns the group of an uncached open at the current chunk size, from the cache -/
+theorem concrete_read_valid (fr : FloatRepr) (hfr : fr.OK) (loads : List Char → Except Err PyVal)
+    (hJ1 : ∀ d : PyVal, d.TupleFree = true → d.WF = true → loads (dump d) = .ok d)
+    (hJ2 : ∀ t : List Char, (¬ Balanced t ∨ t = []) → ∃ e, loads t = .error e)
+    (root : String) (file : Bytes) (name : String) (gname : String) (g : ImageGroup) (cg : CGroup)
+    (h : openImageFile file name 1 = .ok (gname, g)) (hb : bridge fr root name gname g = some cg)
+    (header : Val) (recs : List Val) (hr : readImageRecords file 1 = .ok (header, recs)) (hn : 0 < recs.length)
+    (hk : (∀ r ∈ recs, IsLineRecord Gen.processedDataRecord r) ∨ (∀ r ∈ recs, IsLineRecord Gen.signalDataRecord r))
+    (hd : DatesOK g = true)
+    (s : CState) (rw r : Nat) (create : Bool)
+    (hloc : s.loc = some (docText (cg.withRpc rw)) ∨ (s.loc = none ∧ s.adj = some (docText (cg.withRpc rw)))) :
+    (openImage { U := fun r => cg.withRpc r, loads := loads } s true create r).result = .ok (cg.withRpc r) :=
+  read_valid { U := fun r => cg.withRpc r, loads := loads }
+    (concrete_env_ok fr hfr loads hJ1 hJ2 root file name gname g cg h hb header recs hr hn hk hd) s rw r create hloc
+
+/-- … and that group IS the bridged result of an uncached open at chunk size `r` (for a well-framed file) -/
+theorem concrete_group_is_uncached_open (fr : FloatRepr) (root : String) (file : Bytes) (name : String) (rpc1 rpc2 : Nat)
+    (n1 n2 : String) (g1 g2 : ImageGroup) (cg1 : CGroup)
+    (h1 : openImageFile file name rpc1 = .ok (n1, g1)) (h2 : openImageFile file name rpc2 = .ok (n2, g2))
+    (hb : bridge fr root name n1 g1 = some cg1)
+    (hd1 hd2 : Val) (recs1 recs2 : List Val)
+    (hr1 : readImageRecords file rpc1 = .ok (hd1, recs1)) (hr2 : readImageRecords file rpc2 = .ok (hd2, recs2))
+    (L : Nat) (hL : 0 < L) (hdrL : intAt hd1 ["sar_data_record_length"] = .ok (L : Int))
+    (t : Nat) (ht : t = 10 ∨ t = 11)
+    (hrl1 : ∀ r ∈ recs1, intAt r ["preamble", "record_length"] = .ok (L : Int))
+    (hty1 : ∀ r ∈ recs1, intAt r ["preamble", "record_type"] = .ok (t : Int))
+    (hrl2 : ∀ r ∈ recs2, intAt r ["preamble", "record_length"] = .ok (L : Int))
+    (hty2 : ∀ r ∈ recs2, intAt r ["preamble", "record_type"] = .ok (t : Int)) :
+    bridge fr root name n2 g2 = some (cg1.withRpc rpc2) :=
+  open_image_bridge_stable fr root file name rpc1 rpc2 n1 n2 g1 g2 cg1 h1 h2 hb hd1 hd2 recs1 recs2 hr1 hr2 L hL hdrL t ht
+    hrl1 hty1 hrl2 hty2
 
 end Alos2.C07
